@@ -164,7 +164,7 @@ F5 ==
 
 (* F6: names - letter case, exact duplicates, and lengths around the limits of the backends *)
 Long(first, n, last) == <<first>> \o Rep("o", n - 2) \o <<last>>       \* n >= 2
-Lens == IF Thorough THEN {2, 3, 4, 5, 8, 9, 27, 30, 31, 58, 63, 64, 65} ELSE {2, 4, 9, 31, 65}
+Lens == IF Thorough THEN {2, 3, 4, 5, 8, 9, 27, 30, 31, 58, 63, 64, 65} ELSE {2, 9, 31, 65}
 F6 ==
     {Diagram("names-case",
              <<[Ent(e1, <<[Attr(na, "Required", "int") EXCEPT !.index = i1], [Attr(n2, "Required", "int") EXCEPT !.column = col, !.index = i2]>>)
